@@ -134,8 +134,11 @@ def _replay_getitem(job, inputs, notes):
     inst = [(vi, v, names) for vi, v in enumerate(job["vectors"]) for names in _name_patterns(len(v))]
     vi, v, names = inst[inputs["instance"]]
     total = sum(v)
-    coll, ms = _collection(v, names, _grid_ns(len(v), vi))
     tag = f"lengths={v} names={names}"
+    try:
+        coll, ms = _collection(v, names, _grid_ns(len(v), vi))
+    except Exception as e:
+        return f"collection-construct | {tag} grid sizes {_grid_ns(len(v), vi)}: building the collection raised {type(e).__name__}: {str(e)[:100]}"
     if len(coll) != total or list(coll.dataset_lengths) != list(v):
         return f"collection-length | {tag}: len={len(coll)} dataset_lengths={coll.dataset_lengths}"
     if list(coll.mazes) != list(range(total)):
